@@ -85,6 +85,9 @@ func init() {
 			for i := 0; i < n; i++ {
 				j := C17Job{Src: gen.LexInput(rt, u.m, 30), FailAt: -1}
 				in := gen.DrawParseInput(rt, u.c, u.d, 12, 3, 40)
+				if rapid.IntRange(0, 9).Draw(rt, "deep") == 0 {
+					in.Toks = gen.DeepInput(rt, u.c)
+				}
 				for _, t := range in.Toks {
 					if t < 0 {
 						j.Toks = append(j.Toks, "INVALID")
